@@ -324,3 +324,34 @@ PROPERTIES["C11"] = {
                "thorough": {"workers": "2-3", "preemptions": "3 (single pattern, un-cached), unbounded (cached), 2 elsewhere"}},
     "deadline": {"quick": 600, "thorough": 3000},
 }
+
+
+PROPERTIES["C10"] = {
+    "engine": "mcsched",
+    "level_text": "the real flow_graph / single_flow_router(parallel) / apply_kernel(parallel) on top of the real "
+                  "thread_pool are compiled against the scheduler shims and with compiler-instrumented memory accesses "
+                  "(-fsanitize=thread, linked against our own callback runtime instead of libtsan); all schedules "
+                  "within the preemption bound are executed for router, kernel and two-call histories with 2 workers, "
+                  "and the first schedules for 3..16 workers; every execution must reproduce the sequential result, "
+                  "must not hang, and every pair of conflicting plain accesses must be ordered by happens-before",
+    "level_note": "by Bernstein's conditions race-free blocks commute, so equality over sync-point schedules plus "
+                  "race-freedom covers the interleavings of the block bodies; sequentially consistent interleavings "
+                  "only; grids: cached 2x3 / 3x3 rasters, cache-less raster, cached and cache-less profile, 9-node mesh; "
+                  "state-cached exploration (the un-cached guarantee for the pool itself is C11's); accesses inside "
+                  "std helpers are attributed to the calling library line through a shadow call stack",
+    "technique": "preemption-bounded exhaustive schedule exploration of the implementation under a controlled "
+                 "scheduler, happens-before race detector fed by compiler instrumentation",
+    "harnesses": [{"name": "mc_flow"}],
+    "rule": "states = distinct scheduler states at choice points; transitions = scheduling steps; evaluations = "
+            "executions; non-trivial = executions with at least one preemptive switch; distinct = distinct sequences "
+            "of choice-point states",
+    "assumptions": ["whether a terminal node lists itself as its own donor differs between the sequential and the "
+                    "parallel router branch; the property does not list the donor table and the difference is not "
+                    "observable through traversal orders, so donors are compared without self entries",
+                    "real std::atomic objects left in instrumented code (shared_ptr reference counts) are executed "
+                    "atomically and contribute no happens-before edge (can only add reports)",
+                    "spin-loop rule and bounds as in C11"],
+    "bounds": {"quick": {"workers": "2 explored (bound 1), 3/4/8 first 64 schedules", "histories": "<= 2 calls"},
+               "thorough": {"workers": "2-3 explored (bound 1-2), 3/4/5/8/16 first 64 schedules", "histories": "<= 4 calls (capped at 300000 executions)"}},
+    "deadline": {"quick": 900, "thorough": 3000},
+}
